@@ -272,11 +272,19 @@ Definition plist_pass (ls : list str) : pres :=
   end.
 
 (* ---------- Makefile.common: MkLines.CheckUsedBy (mklines.go) with SplitToParagraphs.
-   A file is its list of lines; in the corresponded domain there are no continuation
-   lines, an empty MkLine is the line "", a comment MkLine is a line that starts with '#'. ---------- *)
+   A file is its list of lines; in the corresponded domain there are no continuation lines. ---------- *)
 Definition used_by_prefix : str := [35;32;117;115;101;100;32;98;121;32].   (* "# used by " *)
-Definition mk_is_comment (l : str) : bool := match l with 35 :: _ => true | _ => false end.
-Definition mk_is_empty (l : str) : bool := match l with [] => true | _ => false end.
+(* MkLineParser.Parse, as far as IsComment/IsEmpty of a line without continuation go:
+   a line that starts with a tab is a comment if '#' follows the white-space, else a shell
+   command (never empty); any other line is a comment if its trimmed text starts with '#'
+   (this includes commented assignments), empty if the trimmed text is empty *)
+Definition skip_hspace (l : str) : str := snd (span is_hspace l).
+Definition mk_is_comment (l : str) : bool := match skip_hspace l with c :: _ => c =? 35 | [] => false end.
+Definition mk_is_empty (l : str) : bool :=
+  match l with
+  | [] => true
+  | c :: _ => if c =? 9 then false else match skip_hspace l with [] => true | _ :: _ => false end
+  end.
 Definition is_space_go (c : N) : bool := ((9 <=? c) && (c <=? 13)) || (c =? 32).   (* strings.Fields, ASCII *)
 Fixpoint fields_count (in_field : bool) (s : str) : N :=
   match s with
